@@ -394,15 +394,15 @@ CONDITIONS = [
          smoke=["check_compose(2, 1, 7, 0, 0, 1, [1, 2], True)", "check_compose(2, 11, 0, 0, 5, 1, [1, 2], False)",
                 "check_compose(2, 13, 5, 0, 2, 2, [1, 2], True)", "check_compose(0, 0, 0, 0, 4, 1, [4], False)",
                 "check_compose(2, 14, 9, 0, 3, 1, [4, 6], False)"]),
-    dict(fn="check_reuse", shards=(16, 16), budget=(140, 600),
+    dict(fn="check_reuse", shards=(18, 18), budget=(140, 600),
          smoke=["check_reuse(2, 0, 4, 0, [1, 2], False)", "check_reuse(2, 1, 2, 1, [1, 2], True)",
                 "check_reuse(2, 0, 6, 3, [1, 2, 3], False)", "check_reuse(1, 9, 0, 2, [1, 2], False)"]),
-    dict(fn="check_bad_element", shards=(16, 16), budget=(70, 600),
+    dict(fn="check_bad_element", shards=(18, 18), budget=(70, 600),
          smoke=["check_bad_element(2, 0, 7, 1, 1, False)", "check_bad_element(0, 0, 7, 0, 2, True)"]),
-    dict(fn="check_empty_nested", shards=(16, 16), budget=(150, 900),
+    dict(fn="check_empty_nested", shards=(18, 18), budget=(150, 900),
          smoke=["check_empty_nested(2, 0, 11, 1, 0, [1, 2], False)", "check_empty_nested(1, 7, 0, 0, 1, [1], False)",
                 "check_empty_nested(0, 0, 0, 0, 3, [3], True)", "check_empty_nested(2, 2, 0, 2, 2, [3, 4], True)"]),
-    dict(fn="check_empty_nested_bad", shards=(16, 16), budget=(60, 600),
+    dict(fn="check_empty_nested_bad", shards=(18, 18), budget=(60, 600),
          smoke=["check_empty_nested_bad(1, 0, 0, 0, 0, 0)", "check_empty_nested_bad(2, 7, 11, 2, 2, 6)"]),
     dict(fn="check_flatten", budget=(60, 600), smoke=["check_flatten(3, 0, 11, 3, 1)"]),
 ]
